@@ -60,6 +60,37 @@ def splitGo (sep : Str) : Str → Nat → Str → List Str
 
 def splitStr (sep : Str) (s : Str) : List Str := splitGo sep s 0 []
 
+/-- how a JoinedString splits incoming text: `value.split(separator)`, or `separator_regex.split(value)`
+    for the two regular expressions the checks use -/
+inductive Splitter
+  | static                      -- no separator_regex
+  | commaWs                     -- `\s*,\s*`
+  | anyOf (cs : List Char)      -- `[...]`, a class of single characters
+  deriving Repr, Inhabited
+
+/-- length of a match of `\s*,\s*` at the start of `s` (leading whitespace, comma, trailing whitespace) -/
+def matchCommaWs (T : Tables) (s : Str) : Option Nat :=
+  let lead := s.takeWhile (isWs T)
+  match s.drop lead.length with
+  | ',' :: rest => some (lead.length + 1 + (rest.takeWhile (isWs T)).length)
+  | _ => none
+
+/-- `re.split` for a pattern that never matches the empty string: `m s` = length of the match at
+    the start of `s`, if any -/
+def splitRe (m : Str → Option Nat) : Str → Nat → Str → List Str
+  | [], _, acc => [acc.reverse]
+  | _ :: rest, skip + 1, acc => splitRe m rest skip acc
+  | c :: rest, 0, acc =>
+    match m (c :: rest) with
+    | some (n + 1) => acc.reverse :: splitRe m rest n []
+    | _ => splitRe m rest 0 (c :: acc)
+
+def splitWith (T : Tables) (sp : Splitter) (sep : Str) (s : Str) : List Str :=
+  match sp with
+  | .static => splitStr sep s
+  | .commaWs => splitRe (matchCommaWs T) s 0 []
+  | .anyOf cs => splitRe (fun t => match t with | c :: _ => if cs.contains c then some 1 else none | [] => none) s 0 []
+
 /-- `sep.join(parts)` -/
 def joinStr (sep : Str) : List Str → Str
   | [] => []
